@@ -2124,6 +2124,44 @@ hdf_close(NC *handle)
     /* loop through top level looking for unlimited dimensions.
        we write them out? -GV */
     if (handle->flags & NC_NDIRTY) {
+#ifdef WRITE_NDG
+        /* The old-style description of a record variable (NDG -> SDD dimension record) carries
+           its number of records too: bring it up to date, or the file describes the same array
+           with two different shapes once records were appended to an existing data set. */
+        if (handle->vars) {
+            tmp  = handle->vars;
+            vars = handle->vars->values;
+            for (i = 0; i < tmp->count; i++, vars += tmp->szof) {
+                int32  GroupID;
+                uint16 gtag, gref, sdd_ref = 0;
+
+                vp = (NC_var **)vars;
+                if (!IS_RECVAR(*vp) || (*vp)->ndg_ref == 0)
+                    continue;
+                if ((GroupID = DFdiread(handle->hdf_file, DFTAG_NDG, (*vp)->ndg_ref)) < 0)
+                    continue; /* no such record in this file */
+                while (!DFdiget(GroupID, &gtag, &gref)) /* (frees the list when it is exhausted) */
+                    if (gtag == DFTAG_SDD)
+                        sdd_ref = gref;
+                if (sdd_ref != 0) {
+                    uint8  nbuf[4];
+                    uint8 *np = nbuf;
+                    int32  sdd_aid;
+
+                    INT32ENCODE(np, (int32)(*vp)->numrecs);
+                    /* (the first dimension follows the 2-byte rank) */
+                    if ((sdd_aid = Hstartaccess(handle->hdf_file, DFTAG_SDD, sdd_ref, DFACC_WRITE)) == FAIL)
+                        HGOTO_FAIL(FAIL);
+                    if (Hseek(sdd_aid, 2, DF_START) == FAIL || Hwrite(sdd_aid, 4, nbuf) != 4) {
+                        Hendaccess(sdd_aid);
+                        HGOTO_FAIL(FAIL);
+                    }
+                    if (Hendaccess(sdd_aid) == FAIL)
+                        HGOTO_FAIL(FAIL);
+                }
+            }
+        }
+#endif
         id = -1;
         vg = Vattach(handle->hdf_file, handle->vgid, "r");
         if (FAIL == vg) {
